@@ -237,24 +237,16 @@ Proof.
     + exfalso. now apply (Hq r Ir).
 Qed.
 
-(* confined, or a copy of a tree onto itself *)
-Definition op_harmless (rs : list path) (o : op) : Prop :=
-  op_confined rs o \/ exists a, o = CopyTree a a.
-
+(* a copy of a tree onto itself cannot do anything *)
 Lemma copytree_self a f : run_op (CopyTree a a) f = f.
 Proof.
   simpl. unfold is_dir, is_none. destruct (f a) as [[c|]|]; reflexivity.
 Qed.
 
-Lemma step_agree_harmless rs o f : op_harmless rs o -> agree_outside rs f (run_op o f).
-Proof.
-  intros [C|(a & ->)]; [now apply step_agree|]. rewrite copytree_self. apply agree_refl.
-Qed.
-
-Lemma run_agree rs ops : Forall (op_harmless rs) ops -> forall f, agree_outside rs f (run ops f).
+Lemma run_agree rs ops : Forall (op_confined rs) ops -> forall f, agree_outside rs f (run ops f).
 Proof.
   induction 1 as [|o ops C _ IH]; intros f; [apply agree_refl|].
-  simpl. eapply agree_trans; [apply step_agree_harmless; eassumption | apply IH].
+  simpl. eapply agree_trans; [apply step_agree; eassumption | apply IH].
 Qed.
 
 Lemma Forall_firstn {A} (P : A -> Prop) k l : Forall P l -> Forall P (firstn k l).
@@ -313,43 +305,72 @@ Proof.
     repeat constructor; exists gd; (split; [assumption | first [apply under_refl | apply under_app]]).
 Qed.
 
+(* ---- which candidates become pages: every accepted name is one clean component ---- *)
+
+Lemma name_ok_clean n : name_ok n = true -> is_dot n = false /\ is_dotdot n = false.
+Proof.
+  destruct n as [|c r]; [discriminate|]. unfold name_ok. intros H.
+  apply andb_true_iff in H as [H _]. apply andb_true_iff in H as [H _]. apply negb_true_iff in H.
+  unfold is_dot, is_dotdot. simpl. unfold ch_eqb in H. rewrite H. split; reflexivity.
+Qed.
+
+Lemma names_stay : forall cs k, forallb name_ok cs = true -> stays k cs = true.
+Proof.
+  induction cs as [|c cs IH]; intros k H; [reflexivity|]. simpl in H.
+  apply andb_true_iff in H as [H1 H2]. destruct (name_ok_clean c H1) as [D1 D2].
+  cbn [stays]. rewrite D1, D2. now apply IH.
+Qed.
+
+Lemma forallb_removelast {A} (g : A -> bool) l : forallb g l = true -> forallb g (removelast l) = true.
+Proof.
+  induction l as [|x l IH]; [reflexivity|]. intros H. simpl in H. apply andb_true_iff in H as [H1 H2].
+  destruct l as [|y l]; [reflexivity|]. change (removelast (x :: y :: l)) with (x :: removelast (y :: l)).
+  simpl forallb at 1. rewrite H1. now apply IH.
+Qed.
+
+(* the invariant the patched get_page_tree establishes: whatever the candidates' names are, the
+   pages that are built have locations below the page directory *)
+Lemma pages_of_loc_ok cands pg : In pg (pages_of cands) -> loc_ok pg = true.
+Proof.
+  unfold pages_of. intros I. apply in_map_iff in I as (d & <- & I). apply filter_In in I as [_ K].
+  unfold loc_ok, page_of, cand_ok in *. cbn [pg_loc].
+  change (stays 0 (s "page" :: ?l)) with (stays 1 l).
+  destruct (cd_index d); apply names_stay; [assumption | now apply forallb_removelast].
+Qed.
+
 Lemma page_ops_confined c pd pg :
-  clean (out c) = true -> loc_ok pg = true -> copy_ok pg = true ->
+  clean (out c) = true -> loc_ok pg = true ->
   Forall (op_confined (roots c)) (page_ops c pd pg).
 Proof.
-  intros C L K. unfold page_ops, page_root.
-  assert (U : under (out c) (norm ((out c ++ [s "page"]) ++ pg_loc pg))).
-  { rewrite <- app_assoc. apply norm_under; assumption. }
+  intros C L. unfold page_ops.
+  assert (U : under (out c) (norm (page_root c ++ pg_loc pg))).
+  { unfold page_root. rewrite <- app_assoc. apply norm_under; assumption. }
   repeat (apply Forall_app; split).
   - destruct (str_eqb (pg_stem pg) (s "index")); [|constructor].
     constructor; [|constructor]. now apply conf_under.
   - constructor; [|constructor]. apply conf_under; [reflexivity|].
-    rewrite <- app_assoc. apply norm_under; [assumption|]. simpl app.
+    unfold page_root. rewrite <- app_assoc. apply norm_under; [assumption|]. simpl app.
     change (s "page" :: pg_loc pg ++ [html (pg_stem pg)])
       with ((s "page" :: pg_loc pg) ++ [html (pg_stem pg)]).
     apply stays_snoc; [apply html_not_dotdot | exact L].
-  - apply Forall_map_intro. intros item I. apply conf_under2; [reflexivity|].
-    unfold copy_ok in K. rewrite forallb_forall in K. specialize (K item I).
-    apply andb_true_iff in K as [K1 K2]. apply negb_true_iff in K1. unfold pjoin. rewrite K1.
-    rewrite <- !app_assoc. apply norm_under; assumption.
+  - apply Forall_map_intro. intros item I. apply filter_In in I as [_ K].
+    apply conf_under2; [reflexivity|]. unfold copy_kept in K. apply prefixb_under in K.
+    eapply under_trans; [|exact K]. unfold page_root. apply under_app.
   - apply Forall_map_intro. intros f _. now apply conf_under2.
 Qed.
 
-Lemma pages_ops_confined c pages :
-  clean (out c) = true -> pages_confined pages = true ->
-  Forall (op_confined (roots c)) (pages_ops c pages).
+Lemma pages_ops_confined c cands :
+  clean (out c) = true -> Forall (op_confined (roots c)) (pages_ops c (pages_of cands)).
 Proof.
-  intros C P. unfold pages_ops. destruct (page_dir c) as [pd|]; [|constructor].
-  unfold pages_confined, pages_loc_ok, pages_copy_ok in P. apply andb_true_iff in P as [P1 P2].
-  rewrite forallb_forall in P1, P2.
-  apply Forall_flat_map_intro. intros pg I. apply page_ops_confined; auto.
+  intros C. unfold pages_ops. destruct (page_dir c) as [pd|]; [|constructor].
+  apply Forall_flat_map_intro. intros pg I. apply page_ops_confined; [assumption|].
+  eapply pages_of_loc_ok; eassumption.
 Qed.
 
-Theorem main_ops_confined b pkg c p pages :
-  clean (out c) = true -> pages_confined pages = true ->
-  Forall (op_confined (roots c)) (main_ops b pkg c p pages).
+Theorem main_ops_confined b pkg c p cands :
+  clean (out c) = true -> Forall (op_confined (roots c)) (main_ops b pkg c p cands).
 Proof.
-  intros C P. unfold main_ops, writeout_ops.
+  intros C. unfold main_ops, writeout_ops.
   repeat (apply Forall_app; split).
   - constructor; [|constructor; [|constructor]].
     + rewrite <- (app_nil_r (out c)). destruct b; now apply conf_out.
@@ -372,78 +393,18 @@ Proof.
   - destruct (externalize c); [|constructor]. constructor; [now apply conf_out | constructor].
 Qed.
 
-Theorem ford_ops_confined b pkg c p pages :
-  clean (out c) = true -> pages_confined pages = true ->
-  Forall (op_confined (roots c)) (ford_ops b pkg c p pages).
+Theorem ford_ops_confined b pkg c p cands :
+  clean (out c) = true -> Forall (op_confined (roots c)) (ford_ops b pkg c p cands).
 Proof.
-  intros C P. unfold ford_ops. destruct (refuse c); [constructor | now apply main_ops_confined].
-Qed.
-
-Lemma page_ops_harmless c pd pg :
-  clean (out c) = true -> loc_ok pg = true -> copy_safe pg = true ->
-  Forall (op_harmless (roots c)) (page_ops c pd pg).
-Proof.
-  intros C L K.
-  assert (B : Forall (op_confined (roots c)) (page_ops c pd
-            {| pg_loc := pg_loc pg; pg_stem := pg_stem pg; pg_copy := []; pg_files := pg_files pg |})).
-  { apply page_ops_confined; auto. }
-  unfold page_ops in *. cbn [pg_loc pg_stem pg_copy pg_files] in B.
-  apply Forall_app in B as [B1 B]. apply Forall_app in B as [B2 B]. apply Forall_app in B as [_ B3].
-  repeat (apply Forall_app; split).
-  - eapply Forall_impl; [|exact B1]. intros o H. now left.
-  - eapply Forall_impl; [|exact B2]. intros o H. now left.
-  - apply Forall_map_intro. intros item I.
-    unfold copy_safe in K. rewrite forallb_forall in K. specialize (K item I).
-    destruct (rp_abs item) eqn:A.
-    + right. unfold pjoin. rewrite A. eauto.
-    + left. apply conf_under2; [reflexivity|]. simpl in K. unfold pjoin, page_root. rewrite A.
-      rewrite <- !app_assoc. apply norm_under; assumption.
-  - eapply Forall_impl; [|exact B3]. intros o H. now left.
-Qed.
-
-Lemma pages_ops_harmless c pages :
-  clean (out c) = true -> pages_safe pages = true ->
-  Forall (op_harmless (roots c)) (pages_ops c pages).
-Proof.
-  intros C P. unfold pages_ops. destruct (page_dir c) as [pd|]; [|constructor].
-  unfold pages_safe, pages_loc_ok in P. apply andb_true_iff in P as [P1 P2].
-  rewrite forallb_forall in P1, P2.
-  apply Forall_flat_map_intro. intros pg I. apply page_ops_harmless; auto.
-Qed.
-
-Lemma main_ops_split b pkg c p pages o :
-  In o (main_ops b pkg c p pages) -> In o (main_ops b pkg c p []) \/ In o (pages_ops c pages).
-Proof.
-  unfold main_ops, writeout_ops. rewrite !in_app_iff.
-  assert (E : pages_ops c [] = []) by (unfold pages_ops; now destruct (page_dir c)).
-  rewrite E. simpl (In o []). tauto.
-Qed.
-
-Theorem ford_ops_harmless b pkg c p pages :
-  clean (out c) = true -> pages_safe pages = true ->
-  Forall (op_harmless (roots c)) (ford_ops b pkg c p pages).
-Proof.
-  intros C P. unfold ford_ops. destruct (refuse c); [constructor|].
-  apply Forall_forall. intros o I. apply main_ops_split in I as [I|I].
-  - left. assert (H := main_ops_confined b pkg c p [] C eq_refl).
-    rewrite Forall_forall in H. now apply H.
-  - assert (H := pages_ops_harmless c pages C P). rewrite Forall_forall in H. now apply H.
-Qed.
-
-Lemma pages_confined_safe pages : pages_confined pages = true -> pages_safe pages = true.
-Proof.
-  unfold pages_confined, pages_safe, pages_copy_ok. intros H. apply andb_true_iff in H as [H1 H2].
-  rewrite H1. simpl. rewrite forallb_forall in *. intros pg I. specialize (H2 pg I).
-  unfold copy_ok, copy_safe in *. rewrite forallb_forall in *. intros item J.
-  specialize (H2 item J). apply andb_true_iff in H2 as [_ H2]. rewrite H2. apply orb_true_r.
+  intros C. unfold ford_ops. destruct (refuse c); [constructor | now apply main_ops_confined].
 Qed.
 
 (* every crash point: any prefix of the operation sequence, on any file system *)
-Theorem prefix_safe b pkg c p pages :
-  clean (out c) = true -> pages_safe pages = true ->
-  forall (f : fs) k, agree_outside (roots c) f (run (firstn k (ford_ops b pkg c p pages)) f).
+Theorem prefix_safe b pkg c p cands :
+  clean (out c) = true ->
+  forall (f : fs) k, agree_outside (roots c) f (run (firstn k (ford_ops b pkg c p cands)) f).
 Proof.
-  intros C P f k. apply run_agree, Forall_firstn. now apply ford_ops_harmless.
+  intros C f k. apply run_agree, Forall_firstn. now apply ford_ops_confined.
 Qed.
 
 Lemma under_anyb_false rs q : under_anyb rs q = false -> forall r, In r rs -> ~ under r q.
@@ -454,13 +415,13 @@ Proof.
   congruence.
 Qed.
 
-Theorem prefix_safe_eq b pkg c p pages :
-  clean (out c) = true -> pages_safe pages = true ->
+Theorem prefix_safe_eq b pkg c p cands :
+  clean (out c) = true ->
   forall (f : fs) k, ancestors_exist (roots c) f ->
-  forall q, outside (roots c) (run (firstn k (ford_ops b pkg c p pages)) f) q = outside (roots c) f q.
+  forall q, outside (roots c) (run (firstn k (ford_ops b pkg c p cands)) f) q = outside (roots c) f q.
 Proof.
-  intros C P f k A q. unfold outside. destruct (under_anyb (roots c) q) eqn:E; [reflexivity|].
-  destruct (prefix_safe b pkg c p pages C P f k q (under_anyb_false _ _ E)) as [H|((r & I & U) & N & _)];
+  intros C f k A q. unfold outside. destruct (under_anyb (roots c) q) eqn:E; [reflexivity|].
+  destruct (prefix_safe b pkg c p cands C f k q (under_anyb_false _ _ E)) as [H|((r & I & U) & N & _)];
     [assumption|].
   exfalso. apply (A r q I U); [|exact N].
   intros ->. exact (under_anyb_false _ _ E r I (under_refl r)).
@@ -474,8 +435,8 @@ Proof.
     now apply prefixb_under.
 Qed.
 
-Theorem refusal b pkg c p pages src :
-  In src (srcs c) -> under (out c) src -> ford_ops b pkg c p pages = [].
+Theorem refusal b pkg c p cands src :
+  In src (srcs c) -> under (out c) src -> ford_ops b pkg c p cands = [].
 Proof.
   intros I U. unfold ford_ops.
   assert (R : refuse c = true) by (apply refuse_iff; eauto). now rewrite R.
@@ -491,14 +452,14 @@ Proof.
   congruence.
 Qed.
 
-Theorem no_source_deleted b pkg c p pages :
-  clean (out c) = true -> pages_safe pages = true -> refuse c = false ->
+Theorem no_source_deleted b pkg c p cands :
+  clean (out c) = true -> refuse c = false ->
   forall src x, In src (srcs c) -> under x src ->
   (forall g, graph_dir c = Some g -> ~ under g x) ->
-  forall (f : fs) k n, f x = Some n -> run (firstn k (ford_ops b pkg c p pages)) f x = Some n.
+  forall (f : fs) k n, f x = Some n -> run (firstn k (ford_ops b pkg c p cands)) f x = Some n.
 Proof.
-  intros C P R src x I U G f k n F.
-  destruct (prefix_safe b pkg c p pages C P f k x) as [H|(_ & N & _)]; [|congruence|congruence].
+  intros C R src x I U G f k n F.
+  destruct (prefix_safe b pkg c p cands C f k x) as [H|(_ & N & _)]; [|congruence|congruence].
   intros r Ir. unfold roots in Ir. destruct Ir as [<-|Ir].
   - eapply src_not_under_out; eauto.
   - destruct (graph_dir c) as [g|]; [|contradiction]. destruct Ir as [<-|[]]. now apply G.
@@ -518,21 +479,21 @@ Proof.
   congruence.
 Qed.
 
-Theorem discovered_sources_kept b pkg c p pages :
-  clean (out c) = true -> pages_safe pages = true ->
+Theorem discovered_sources_kept b pkg c p cands :
+  clean (out c) = true ->
   In (out c) (excl c) ->
   forall x, discovered c x = true -> x <> out c ->
   (forall g, graph_dir c = Some g -> ~ under g x) ->
-  forall (f : fs) k n, f x = Some n -> run (firstn k (ford_ops b pkg c p pages)) f x = Some n.
+  forall (f : fs) k n, f x = Some n -> run (firstn k (ford_ops b pkg c p cands)) f x = Some n.
 Proof.
-  intros C P I x D N G f k n F.
-  destruct (prefix_safe b pkg c p pages C P f k x) as [H|(_ & M & _)]; [|congruence|congruence].
+  intros C I x D N G f k n F.
+  destruct (prefix_safe b pkg c p cands C f k x) as [H|(_ & M & _)]; [|congruence|congruence].
   intros r Ir. unfold roots in Ir. destruct Ir as [<-|Ir].
   - now apply discovered_not_under_out.
   - destruct (graph_dir c) as [g|]; [|contradiction]. destruct Ir as [<-|[]]. now apply G.
 Qed.
 
-(* ------------------------------------------------------------------ refutation of the full statement *)
+(* ------------------------------------------------------------------ former counterexamples, now regression inputs *)
 
 Definition confinedb (rs : list path) (ops : list op) : bool :=
   forallb (fun o => forallb (under_anyb rs) (targets o)) ops.
@@ -561,31 +522,21 @@ Definition w_proj : proj :=
   {| p_docs := [(s "module", s "m"); (s "proc", s "sub")]; p_lists := [s "modules.html"];
      p_srcfiles := [([s "proj"; s "src"; s "m.f90"], s "m.f90")];
      p_graphs := [s "module~~m~~UsesGraph"] |}.
-Definition w_page_ok : page :=
-  {| pg_loc := [s "sub"]; pg_stem := s "index"; pg_copy := [rel [".."; "img"]; rel ["data"]];
-     pg_files := [s "a.png"] |}.
-(* copy_subdir: ../../shared  in pages/index.md *)
-Definition w_page_copy : page :=
-  {| pg_loc := []; pg_stem := s "index"; pg_copy := [rel [".."; ".."; "shared"]]; pg_files := [] |}.
-(* a page reached through  ordered_subpage: sub/../../../note.md  has location ../.. *)
-Definition w_page_loc : page :=
-  {| pg_loc := [s ".."; s ".."]; pg_stem := s "note"; pg_copy := []; pg_files := [] |}.
+Definition mkcand (entries : list string) (idx : bool) (stem : string) (cp : list rpath)
+                  (files : list string) : cand :=
+  {| cd_entries := map s entries; cd_index := idx; cd_stem := s stem; cd_copy := cp;
+     cd_files := map s files |}.
+(* pages/sub/index.md with  copy_subdir: ../img, data  and a file a.png *)
+Definition w_cand_ok : cand := mkcand ["sub"] true "index" [rel [".."; "img"]; rel ["data"]] ["a.png"].
+(* copy_subdir: ../../shared  in pages/index.md — was copied to /proj/shared; now skipped *)
+Definition w_cand_copy : cand := mkcand [] true "index" [rel [".."; ".."; "shared"]] [].
+(* ordered_subpage: sub/../../../note.md — was written to /proj/note.html; now no page at all *)
+Definition w_cand_loc : cand := mkcand ["sub/../../../note.md"] false "note" [] [].
+Definition w_cand_dotdot : cand := mkcand [".."; ".."; "note.md"] false "note" [] [].
+(* project-level copy_subdir (absolute after normalise_paths) *)
+Definition w_cand_abs : cand :=
+  mkcand [] true "index" [{| rp_abs := true; rp_comps := [s "proj"; s "pages"; s "data"] |}] [].
 
-Lemma copy_subdir_escapes :
-  clean (out w_cfg) = true /\ pages_loc_ok [w_page_copy] = true /\
-  confinedb (roots w_cfg) (ford_ops false [s "<ford>"] w_cfg w_proj [w_page_copy]) = false /\
-  In (CopyTree [s "shared"] [s "proj"; s "shared"])
-     (ford_ops false [s "<ford>"] w_cfg w_proj [w_page_copy]).
-Proof. vm_compute. repeat split; auto 60. Qed.
-
-Lemma page_location_escapes :
-  clean (out w_cfg) = true /\ pages_copy_ok [w_page_loc] = true /\
-  confinedb (roots w_cfg) (ford_ops false [s "<ford>"] w_cfg w_proj [w_page_loc]) = false /\
-  In (Write [s "proj"; s "note.html"]) (ford_ops false [s "<ford>"] w_cfg w_proj [w_page_loc]).
-Proof. vm_compute. repeat split; auto 60. Qed.
-
-(* the escaping copy really lands outside: on a file system holding /shared/f and the project,
-   the run creates /proj/shared/f, which is neither under /proj/doc nor under /proj/graphs *)
 Definition w_fs : fs := of_list
   [([], Dir); ([s "proj"], Dir); ([s "proj"; s "src"], Dir); ([s "proj"; s "src"; s "m.f90"], File 1);
    ([s "proj"; s "pages"], Dir); ([s "proj"; s "pages"; s "index.md"], File 2);
@@ -594,57 +545,32 @@ Definition w_fs : fs := of_list
    ([s "<ford>"; s "webfonts"], Dir); ([s "<ford>"; s "search"], Dir);
    ([s "<ford>"; s "favicon.png"], File 4)].
 
-Lemma copy_subdir_escape_effect :
-  w_fs [s "proj"; s "shared"; s "f"] = None /\
-  run (ford_ops false [s "<ford>"] w_cfg w_proj [w_page_copy]) w_fs [s "proj"; s "shared"; s "f"]
-    = Some (File 3) /\
-  under_anyb (roots w_cfg) [s "proj"; s "shared"; s "f"] = false.
+(* the escaping entries produce exactly the operations of a page tree without them *)
+Example former_witness_copy_subdir :
+  ford_ops false [s "<ford>"] w_cfg w_proj [w_cand_copy]
+    = ford_ops false [s "<ford>"] w_cfg w_proj [mkcand [] true "index" [] []] /\
+  run (ford_ops false [s "<ford>"] w_cfg w_proj [w_cand_copy]) w_fs [s "proj"; s "shared"; s "f"] = None.
 Proof. vm_compute. auto. Qed.
 
+Example former_witness_ordered_subpage :
+  ford_ops false [s "<ford>"] w_cfg w_proj [w_cand_loc] = ford_ops false [s "<ford>"] w_cfg w_proj [] /\
+  ford_ops false [s "<ford>"] w_cfg w_proj [w_cand_dotdot] = ford_ops false [s "<ford>"] w_cfg w_proj [].
+Proof. vm_compute. auto. Qed.
 
-(* the statement without the restriction on pages is false of the code, for each of the two
-   ways a page can point above the output directory *)
-Theorem statement_refuted_copy_subdir :
-  ~ (forall b pkg c p pages, clean (out c) = true -> pages_loc_ok pages = true ->
-       Forall (op_confined (roots c)) (ford_ops b pkg c p pages)).
-Proof.
-  intros H. destruct copy_subdir_escapes as (C & L & N & _).
-  specialize (H false [s "<ford>"] w_cfg w_proj [w_page_copy] C L).
-  apply confinedb_complete in H. congruence.
-Qed.
-
-Theorem statement_refuted_page_location :
-  ~ (forall b pkg c p pages, clean (out c) = true -> pages_copy_ok pages = true ->
-       Forall (op_confined (roots c)) (ford_ops b pkg c p pages)).
-Proof.
-  intros H. destruct page_location_escapes as (C & L & N & _).
-  specialize (H false [s "<ford>"] w_cfg w_proj [w_page_loc] C L).
-  apply confinedb_complete in H. congruence.
-Qed.
-
-Theorem statement_refuted :
-  ~ (forall b pkg c p pages, clean (out c) = true ->
-       Forall (op_confined (roots c)) (ford_ops b pkg c p pages)).
-Proof. intros H. apply statement_refuted_copy_subdir. intros b pkg c p pages C _. now apply H. Qed.
-
-Theorem prefix_safe_refuted :
-  ~ (forall b pkg c p pages, clean (out c) = true -> pages_loc_ok pages = true ->
-       forall (f : fs) k, agree_outside (roots c) f (run (firstn k (ford_ops b pkg c p pages)) f)).
-Proof.
-  intros H. destruct copy_subdir_escapes as (C & L & _). destruct copy_subdir_escape_effect as (N & E & U).
-  specialize (H false [s "<ford>"] w_cfg w_proj [w_page_copy] C L w_fs
-                (length (ford_ops false [s "<ford>"] w_cfg w_proj [w_page_copy]))
-                [s "proj"; s "shared"; s "f"] (under_anyb_false _ _ U)).
-  rewrite firstn_all in H. rewrite E, N in H. destruct H as [H|(_ & _ & H)]; discriminate H.
-Qed.
+Example absolute_copy_subdir_skipped :
+  ford_ops false [s "<ford>"] w_cfg w_proj [w_cand_abs]
+    = ford_ops false [s "<ford>"] w_cfg w_proj [mkcand [] true "index" [] []].
+Proof. vm_compute. reflexivity. Qed.
 
 (* ------------------------------------------------------------------ non-vacuity *)
 
 Example confined_nonvacuous :
-  clean (out w_cfg) = true /\ pages_confined [w_page_ok] = true /\ refuse w_cfg = false /\
-  length (ford_ops false [s "<ford>"] w_cfg w_proj [w_page_ok]) = 39 /\
-  confinedb (roots w_cfg) (ford_ops false [s "<ford>"] w_cfg w_proj [w_page_ok]) = true.
-Proof. vm_compute. auto. Qed.
+  clean (out w_cfg) = true /\ refuse w_cfg = false /\
+  length (ford_ops false [s "<ford>"] w_cfg w_proj [w_cand_ok; w_cand_copy; w_cand_loc]) = 41 /\
+  In (CopyTree [s "proj"; s "pages"; s "img"] [s "proj"; s "doc"; s "page"; s "img"])
+     (ford_ops false [s "<ford>"] w_cfg w_proj [w_cand_ok; w_cand_copy; w_cand_loc]) /\
+  confinedb (roots w_cfg) (ford_ops false [s "<ford>"] w_cfg w_proj [w_cand_ok; w_cand_copy; w_cand_loc]) = true.
+Proof. vm_compute. repeat split; auto 80. Qed.
 
 Lemma under_inv q a t : under q (a :: t) -> q = [] \/ exists q', q = a :: q' /\ under q' t.
 Proof.
@@ -657,9 +583,9 @@ Proof. intros [r H]. destruct q; [reflexivity | discriminate]. Qed.
 
 Example prefix_safe_nonvacuous :
   ancestors_exist (roots w_cfg) w_fs /\
-  run (ford_ops false [s "<ford>"] w_cfg w_proj [w_page_ok]) w_fs [s "proj"; s "doc"; s "src"; s "m.f90"]
+  run (ford_ops false [s "<ford>"] w_cfg w_proj [w_cand_ok]) w_fs [s "proj"; s "doc"; s "src"; s "m.f90"]
     = Some (File 1) /\
-  run (ford_ops false [s "<ford>"] w_cfg w_proj [w_page_ok]) w_fs [s "proj"; s "src"; s "m.f90"]
+  run (ford_ops false [s "<ford>"] w_cfg w_proj [w_cand_ok]) w_fs [s "proj"; s "src"; s "m.f90"]
     = Some (File 1).
 Proof.
   split; [|vm_compute; auto].
@@ -671,15 +597,11 @@ Proof.
      apply under_nil_inv in U; subst; now elim N).
 Qed.
 
-(* project-level copy_subdir (absolute after normalise_paths): inside the wider class *)
-Definition w_page_abs : page :=
-  {| pg_loc := []; pg_stem := s "index";
-     pg_copy := [{| rp_abs := true; rp_comps := [s "proj"; s "pages"; s "data"] |}]; pg_files := [] |}.
-Example safe_nonvacuous :
-  pages_safe [w_page_ok; w_page_abs] = true /\ pages_confined [w_page_ok; w_page_abs] = false /\
-  In (CopyTree [s "proj"; s "pages"; s "data"] [s "proj"; s "pages"; s "data"])
-     (ford_ops false [s "<ford>"] w_cfg w_proj [w_page_ok; w_page_abs]).
-Proof. vm_compute. repeat split; auto 60. Qed.
+Example name_filter_nonvacuous :
+  name_ok (s "sub") = true /\ name_ok (s "a.md") = true /\ name_ok (s "..") = false /\
+  name_ok (s ".hidden") = false /\ name_ok (s "a.md~") = false /\ name_ok (s "sub/../../x.md") = false /\
+  name_ok (s "sub/") = false /\ name_ok [] = false.
+Proof. vm_compute. auto 10. Qed.
 
 Definition w_refused : rcfg :=
   {| r_out := rel ["."]; r_out_meta := rel ["."]; r_exclude_dir := [];
